@@ -16,7 +16,7 @@ TRUSTED = [
     "run_load / refresh_priorities (float demand priorities) are an oracle: the theorems hold for every LOAD/EVICT answer and "
     "every virtual cluster it leaves; the demand bookkeeping (floats) of add_task/remove_task is not modelled (no effect on "
     "placements when scheduler_run_load is off)",
-    "Resources.__gt__/allocate/__copy__ (workload/resources.py) are transcribed (res_gt, alloc_loop); their own properties belong to C04",
+    "Resources.__gt__ (cumulative play of the requests, /repo 402c33a) / allocate / __copy__ (workload/resources.py) are transcribed (take_loop, res_play, alloc_loop); their own properties belong to C04",
     "work profiles have at least one loading strategy (Model.Request.__init__ dereferences it)",
 ]
 HEADER = "From Verif Require Import Gen.Src_Clockwork Model.Clockwork."
@@ -479,8 +479,8 @@ def run(ctx):
     built = ctx.build("C15", deps=["Model/Clockwork.v"])
     quick = ctx.tier == "quick"
     size = 4 if quick else 6
-    plan = [("natural", 240 if quick else 2000), ("tight", 100 if quick else 800), ("ties", 80 if quick else 600),
-            ("adversarial", 70 if quick else 500), ("load", 50 if quick else 300), ("sim", 30 if quick else 200)]
+    plan = [("natural", 160 if quick else 2000), ("tight", 70 if quick else 800), ("ties", 60 if quick else 600),
+            ("adversarial", 50 if quick else 500), ("load", 40 if quick else 300), ("sim", 20 if quick else 200)]
     ctx.rules.append(RULE % size)
     dist_all = {}
     for mode, n in plan:
